@@ -100,4 +100,21 @@ theorem F5_far_form_lands :
       some { m with rip := 0x40100f#64 } :=
   ⟨by decide, fun m => C15.return_exact _ _ m⟩
 
+/-- `MOVL $1,DX; loop: 8×NOP; JMP loop` — one loop whose head (offset 5) lies inside the bytes the entry jump overwrites -/
+def loopFn : List Ins :=
+  { len := 5, pcrelOff := 0, pcrel := 0, bytes := b [0xba, 1, 0, 0, 0], isRet := false, isCall := false, backward := false, opZero := false } ::
+  ((List.replicate 8 { len := 1, pcrelOff := 0, pcrel := 0, bytes := b [0x90], isRet := false, isCall := false, backward := false, opZero := false }) ++
+  [{ len := 2, pcrelOff := 1, pcrel := 1, bytes := b [0xeb, 0xf6], isRet := false, isCall := false, backward := true, opZero := false },
+   { len := 1, pcrelOff := 0, pcrel := 0, bytes := b [0xcc], isRet := false, isCall := false, backward := false, opZero := false }])
+
+/-- **why the function size matters** (seeded change: `GetFuncSize` bounded at 16 KiB): handed the real size (16) the relocation of
+    `loopFn` is refused — the closing `JMP loop` at offset 13 targets offset 5 — but handed a size that stops short of that branch
+    (12) the very same function is accepted with n = 13, although the loop then branches into the middle of the entry jump.
+    `C03.reloc_whole_function_checked` therefore carries `progLen prog ≤ fs` as a hypothesis. -/
+theorem truncated_size_misses_back_branch :
+    fixRelativeAddr Cfg.fixed 0x500000#64 0x600000#64 16 13 .eof loopFn = .error "err:jump-between" ∧
+    (∃ out, fixRelativeAddr Cfg.fixed 0x500000#64 0x600000#64 12 13 .eof loopFn = .ok (out, 13)) ∧
+    (∃ i ∈ loopFn, i.pcrelOff ≠ 0 ∧ (13 : Int) + i.len + sdisp i.field = 5) := by
+  refine ⟨rfl, ⟨_, rfl⟩, ⟨loopFn[9], by decide, by decide, by decide⟩⟩
+
 end C03F
